@@ -36,7 +36,12 @@ func DefaultSolvers(timeoutS int) []SolverCfg {
 }
 
 // Script assembles the SMT-LIB query of one obligation.
-func (u *Unit) Script(ob *Obligation, pi int) string {
+func (u *Unit) Script(ob *Obligation, pi int) string { return u.ScriptDepth(ob, pi, 0) }
+
+// ScriptDepth: the query with the hypotheses restricted to those within 'depth' sharing steps of the goal (0 = the
+// full cone of influence). Fewer hypotheses can only make a validity proof harder, so an 'unsat' of a focused query
+// is as good as one of the full query; any other answer of a focused query means nothing.
+func (u *Unit) ScriptDepth(ob *Obligation, pi int, depth int) string {
 	part := ob.Parts[pi]
 	var sb strings.Builder
 	sb.WriteString("(set-option :produce-models true)\n(set-logic ALL)\n")
@@ -44,9 +49,16 @@ func (u *Unit) Script(ob *Obligation, pi int) string {
 		sb.WriteString(d)
 		sb.WriteByte('\n')
 	}
-	sliced := sliceItems(u.Items[:part.Prefix], part.Goal)
+	sliced := sliceItemsDepth(u.Items[:part.Prefix], part.Goal, depth)
 	declared := map[string]bool{}
+	seenLine := map[string]bool{}
 	for _, it := range sliced {
+		if strings.HasPrefix(it, "(assert ") {
+			if seenLine[it] {
+				continue
+			}
+			seenLine[it] = true
+		}
 		if strings.HasPrefix(it, "(declare-") || strings.HasPrefix(it, "(define-fun") {
 			if sy := symbolsOf(it); len(sy) > 0 {
 				declared[sy[0]] = true
@@ -115,11 +127,15 @@ func runSolver(ctx context.Context, cfg SolverCfg, file string) (status, output 
 
 // Solve races the solvers on one script. all=true waits for every solver (thorough tier).
 func Solve(script, dir, name string, solvers []SolverCfg, all bool) SolverResult {
+	return SolveCtx(context.Background(), script, dir, name, solvers, all)
+}
+
+func SolveCtx(parent context.Context, script, dir, name string, solvers []SolverCfg, all bool) SolverResult {
 	file := filepath.Join(dir, sanitizeFile(name)+".smt2")
 	if err := os.WriteFile(file, []byte(script), 0o644); err != nil {
 		return SolverResult{Status: "error", Output: err.Error()}
 	}
-	ctx, cancel := context.WithCancel(context.Background())
+	ctx, cancel := context.WithCancel(parent)
 	defer cancel()
 	type ans struct {
 		cfg    SolverCfg
@@ -229,10 +245,13 @@ func SolveAll(units []*Unit, dir string, solvers []SolverCfg, workers int, all b
 				if j.ob.Expect == "sat" {
 					sv = DefaultSolvers(3) // vacuity covers only need a quick model
 				}
-				r := Solve(script, dir, fmt.Sprintf("%04d_%d_%s", j.oi, j.pi, j.ob.Name), sv, all && j.ob.Expect != "sat")
-				ok := r.Status == "unsat"
+				var r SolverResult
+				ok := false
 				if j.ob.Expect == "sat" {
+					r = Solve(script, dir, fmt.Sprintf("%04d_%d_%s", j.oi, j.pi, j.ob.Name), sv, false)
 					ok = r.Status == "sat"
+				} else {
+					r, ok = solveStaged(j.u, j.ob, j.pi, script, dir, fmt.Sprintf("%04d_%d", j.oi, j.pi), sv, all)
 				}
 				mu.Lock()
 				res := &results[j.oi]
@@ -258,6 +277,94 @@ func SolveAll(units []*Unit, dir string, solvers []SolverCfg, workers int, all b
 	return results
 }
 
+// solveStaged: the full query first; when it has not answered after a short while, focused queries (hypotheses near
+// the goal only) run beside it. 'unsat' from any of them proves the obligation; 'sat' counts only from the full query.
+func solveStaged(u *Unit, ob *Obligation, pi int, script, dir, prefix string, sv []SolverCfg, all bool) (SolverResult, bool) {
+	ctx, cancel := context.WithCancel(context.Background())
+	defer cancel()
+	fullCh := make(chan SolverResult, 1)
+	go func() { fullCh <- SolveCtx(ctx, script, dir, prefix+"_"+ob.Name, sv, all) }()
+	patience := time.NewTimer(1500 * time.Millisecond)
+	defer patience.Stop()
+	select {
+	case r := <-fullCh:
+		if r.Status == "unsat" || r.Status == "sat" || r.Status == "disagree" {
+			return r, r.Status == "unsat"
+		}
+		// no answer at all: focused queries, one after the other
+		for depth := 1; depth <= 3; depth++ {
+			fs := u.ScriptDepth(ob, pi, depth)
+			if len(fs) >= len(script) {
+				break
+			}
+			r2 := SolveCtx(ctx, fs, dir, fmt.Sprintf("%s_f%d_%s", prefix, depth, ob.Name), sv, false)
+			if r2.Status == "unsat" {
+				r2.Solver = fmt.Sprintf("%s+focus%d", r2.Solver, depth)
+				r2.Seconds += r.Seconds
+				return r2, true
+			}
+		}
+		return r, false
+	case <-patience.C:
+	}
+	focusCh := make(chan SolverResult, 1)
+	go func() {
+		// the three focused queries run side by side; the first 'unsat' wins
+		type fr struct {
+			r SolverResult
+			d int
+		}
+		ch := make(chan fr, 3)
+		n := 0
+		seen := map[int]bool{}
+		for depth := 1; depth <= 3; depth++ {
+			fs := u.ScriptDepth(ob, pi, depth)
+			if len(fs) >= len(script) || seen[len(fs)] {
+				continue
+			}
+			seen[len(fs)] = true
+			n++
+			go func(depth int, fs string) {
+				ch <- fr{SolveCtx(ctx, fs, dir, fmt.Sprintf("%s_f%d_%s", prefix, depth, ob.Name), sv, false), depth}
+			}(depth, fs)
+		}
+		for ; n > 0; n-- {
+			x := <-ch
+			if x.r.Status == "unsat" {
+				x.r.Solver = fmt.Sprintf("%s+focus%d", x.r.Solver, x.d)
+				focusCh <- x.r
+				return
+			}
+		}
+		focusCh <- SolverResult{Status: "unknown"}
+	}()
+	var full *SolverResult
+	focusDone := false
+	for full == nil || !focusDone {
+		select {
+		case r := <-fullCh:
+			if r.Status == "unsat" || r.Status == "sat" || r.Status == "disagree" {
+				return r, r.Status == "unsat"
+			}
+			full = &r
+		case r2 := <-focusCh:
+			focusDone = true
+			if r2.Status == "unsat" && !all {
+				return r2, true
+			}
+			if r2.Status == "unsat" {
+				// thorough tier: the full query's solvers still get their time; the focused proof stands if they stay silent
+				r := <-fullCh
+				if r.Status == "sat" || r.Status == "disagree" || r.Status == "unsat" {
+					return r, r.Status == "unsat"
+				}
+				return r2, true
+			}
+		}
+	}
+	return *full, false
+}
+
 // ---- cone-of-influence slicing of the hypotheses of one query ----
 // Dropping hypotheses is always sound for a validity query (it can only make the proof harder); it keeps
 // quantified facts about unrelated state out of queries that are about something else.
@@ -271,8 +378,15 @@ func isGuardSym(s string) bool {
 	return strings.HasPrefix(s, "|reach.") || strings.HasPrefix(s, "|edge!") || strings.HasPrefix(s, "|pc!") || strings.HasPrefix(s, "|G.alloc")
 }
 
-func sliceItems(items []string, goal string) []string {
-	if os.Getenv("GOVC_NOSLICE") != "" {
+func sliceItems(items []string, goal string) []string { return sliceItemsDepth(items, goal, 0) }
+
+// in a focused query the parameters and the addresses of embedded parts do not make a hypothesis relevant either
+func isFocusHub(s string) bool {
+	return strings.HasPrefix(s, "|p.") || strings.HasPrefix(s, "|fv.") || strings.HasPrefix(s, "|emb.") || strings.HasPrefix(s, "|embinv.") || s == "embid"
+}
+
+func sliceItemsDepth(items []string, goal string, depth int) []string {
+	if os.Getenv("GOVC_NOSLICE") != "" && depth == 0 {
 		return items
 	}
 	type it struct {
@@ -327,29 +441,50 @@ func sliceItems(items []string, goal string) []string {
 		cone[s] = true
 	}
 	keep := make([]bool, len(items))
+	cone0 := cone
 	changed := true
+	round := 0
 	for changed {
 		changed = false
+		round++
+		// definitions are always followed to their end
+		for defs := true; defs; {
+			defs = false
+			for i := range parsed {
+				x := &parsed[i]
+				if !keep[i] && x.kind == "def" && cone[x.name] {
+					keep[i] = true
+					defs, changed = true, true
+					for _, s := range x.body {
+						cone[s] = true
+					}
+				}
+			}
+		}
+		if depth > 0 && round > depth {
+			break
+		}
+		// a focused query takes the hypotheses of one round from the cone as it stood when the round began
+		frozen := cone
+		if depth > 0 {
+			frozen = map[string]bool{}
+			for k := range cone {
+				frozen[k] = true
+			}
+		}
 		for i := range parsed {
 			x := &parsed[i]
 			if keep[i] {
 				continue
 			}
 			switch x.kind {
-			case "def":
-				if cone[x.name] {
-					keep[i] = true
-					changed = true
-					for _, s := range x.body {
-						cone[s] = true
-					}
-				}
 			case "assert":
+				cone := frozen
 				rel := len(x.body) == 0
 				onlyHubs := true
 				hubInCone := false
 				for _, s := range x.body {
-					if !isGuardSym(s) {
+					if !isGuardSym(s) && !(depth > 0 && isFocusHub(s)) {
 						onlyHubs = false
 						if cone[s] {
 							rel = true
@@ -366,10 +501,10 @@ func sliceItems(items []string, goal string) []string {
 					keep[i] = true
 					changed = true
 					for _, s := range x.body {
-						cone[s] = true
+						cone0[s] = true
 					}
 					for _, s := range x.guard {
-						cone[s] = true
+						cone0[s] = true
 					}
 				}
 			}
